@@ -92,15 +92,26 @@ def bytesToString (b : List Nat) : String := String.ofList (b.map Char.ofNat)
 
 def stepRun (_ins impl : List String) : Option String := do
   match impl with
-  | races :: panics :: deadlocks :: malformed :: why :: _ =>
+  | races :: panics :: deadlocks :: malformed :: untabled :: why :: _ =>
     let o : RunObs := { races := ← races.toNat?, panics := ← panics.toNat?,
-                        deadlocks := ← deadlocks.toNat?, malformed := ← malformed.toNat? }
+                        deadlocks := ← deadlocks.toNat?, malformed := ← malformed.toNat?,
+                        untabled := ← untabled.toNat? }
     let whyS := bytesToString (← hexDecode why)
     let m := modelRun
     let agree := o == m
     let spec := if specRun o then none else some (if whyS == "-" || whyS.isEmpty then "run" else whyS)
-    pure (verdict agree spec s!"{m.races}\t{m.panics}\t{m.deadlocks}\t{m.malformed}")
+    pure (verdict agree spec s!"{m.races}\t{m.panics}\t{m.deadlocks}\t{m.malformed}\t{m.untabled}")
   | _ => none
+
+/-- A finding the regenerated tables still exclude from the per-program
+theorems: the model of a disciplined program has none. -/
+def stepStatic (ins impl : List String) : Option String := do
+  match ins, impl with
+  | [finding], n :: digest :: _ =>
+    let k ← n.toNat?
+    let spec := if k == 0 then none else some ("static:known-rows:" ++ finding ++ ":" ++ n ++ ":" ++ digest)
+    pure (verdict (k == 0) spec "0")
+  | _, _ => none
 
 def step (_ : Unit) (line : String) : Unit × String :=
   let fs := splitTab line
@@ -112,6 +123,7 @@ def step (_ : Unit) (line : String) : Unit × String :=
         if op == "C05.sched" then stepSched ins impl
         else if op == "C05.pend" then stepPend ins impl
         else if op == "C05.run" then stepRun ins impl
+        else if op == "C05.static" then stepStatic ins impl
         else none
       ((), r.getD "bad-op")
     | none => ((), "bad-op")
